@@ -2757,7 +2757,12 @@ def loadtxt(fname, dtype="float", delimiter="\t", usecols=None, comments="#"):
         ndmin=0,
     )
     if len(arrays.shape) < 2:
-        arrays = [arrays]
+        num_read = num_cols if usecols is None else np.size(usecols)
+        if num_read > 1 and arrays.shape == (num_read,):
+            # a single row of several columns: one value per column
+            arrays = list(arrays)
+        else:
+            arrays = [arrays]
     if usecols is not None:
         units = [units[col] for col in usecols]
     ret = tuple(unyt_array(arr, unit) for arr, unit in zip(arrays, units))
